@@ -95,5 +95,13 @@ func Probes() []*Manifest {
 	top.Includes = []Ident{l.ID, rr.ID}
 	ps = append(ps, mk("include-diamond", []*Decl{leaf, base, l, rr, top}))
 
+	// a namespace whose package name equals the receiver name of a type that refers into it
+	ps = append(ps, mk("receiver-shadows-package", []*Decl{rec("delta.x", "Kind", fld("v", prim("int32"))),
+		rec("eps", "X1", fld("k", ref(Ident{"delta.x", "Kind"})))}))
+
+	// a namespace whose package name equals a variable the generated code declares
+	ps = append(ps, mk("package-named-like-generated-variable", []*Decl{rec("alpha.reader", "Kind", fld("v", prim("int32"))),
+		rec("eps", "Holder", fld("k", ref(Ident{"alpha.reader", "Kind"})), Field{Name: "o", Ty: ref(Ident{"alpha.reader", "Kind"}), Optional: true})}))
+
 	return ps
 }
